@@ -145,6 +145,9 @@ def asInt : PV → Option Int
   | _ => none
 
 def evalBinop (op : BinOp) (a b : PV) : Except PErr PV :=
+  match a, b, op with
+  | .bytes x, .bytes y, .add => .ok (.bytes (x ++ y))       -- concatenation of bytes / bytearray values
+  | _, _, _ =>
   match asInt a, asInt b with
   | some x, some y =>
     match op with
